@@ -67,13 +67,11 @@ func (m *model) pubkeyAt(h int, index uint64) (int, bool) {
 	return 0, false
 }
 
-// precondition: key is not present at an earlier index of the history.
-func (m *model) addAllowed(h int, index uint64, key int) bool {
-	if at, ok := m.indexOf(h, key); ok && uint64(at) < index {
-		return false
-	}
-	return true
-}
+// addAllowed: every (index, key) may be passed to AddValidator. Real callers never pass a key that is
+// already present at an EARLIER index of the same history (deposit processing tops up instead), but the
+// property quantifies over any overlap of indices and keys, and the only outcome consistent with
+// "a handle is a sequence of distinct pubkeys" is then an error that changes nothing (see add).
+func (m *model) addAllowed(h int, index uint64, key int) bool { return true }
 
 // classifyAdd names the (index kind, key kind) of an add before it is applied.
 func (m *model) classifyAdd(h int, index uint64, key int) (ik, kk string) {
@@ -121,6 +119,11 @@ func (m *model) onOtherHistory(h int, key int) bool {
 // add applies the action; returns the result kind and the handle the caller holds afterwards.
 func (m *model) add(h int, index uint64, key int) (kind string, out int) {
 	n := uint64(len(m.Seqs[h]))
+	if at, ok := m.indexOf(h, key); ok && uint64(at) < index {
+		// the key would appear twice on one history (or, after forking out at its old place, the
+		// requested index lies beyond the next one): an error, nothing changes
+		return resError, h
+	}
 	switch {
 	case index > n:
 		return resError, h
